@@ -544,7 +544,7 @@ def rungekutta4(m: Model, d: Data):
   for i in range(3):
     a, b = float(A[i]), B[i + 1]
     _rk_perturb_state(m, d, a, qpos_t0, qvel_t0, act_t0)
-    forward(m, d)
+    _forward(m, d, skipsensor=True)  # sensordata keeps the values of the step's initial state
     _rk_accumulate(m, d, b, qvel_rk, qacc_rk, act_dot_rk)
 
   wp.copy(d.qpos, qpos_t0)
@@ -1374,36 +1374,37 @@ def fwd_acceleration(m: Model, d: Data, factorize: bool = False):
     smooth.solve_m(m, d, d.qacc_smooth, d.qfrc_smooth)
 
 
-def _energy_pos(m: Model, d: Data):
+def _energy_pos(m: Model, d: Data, skipsensor: bool = False):
   if m.opt.enableflags & EnableBit.ENERGY:
-    if m.sensor_e_potential == 0:  # not computed by sensor
+    if skipsensor or m.sensor_e_potential == 0:  # not computed by sensor
       sensor.energy_pos(m, d)
   else:
     d.energy.zero_()
 
 
-def _energy_vel(m: Model, d: Data):
+def _energy_vel(m: Model, d: Data, skipsensor: bool = False):
   if m.opt.enableflags & EnableBit.ENERGY:
-    if m.sensor_e_kinetic == 0:  # not computed by sensor
+    if skipsensor or m.sensor_e_kinetic == 0:  # not computed by sensor
       sensor.energy_vel(m, d)
 
 
-@event_scope
-def forward(m: Model, d: Data):
-  """Forward dynamics."""
+def _forward(m: Model, d: Data, skipsensor: bool):
+  """Forward dynamics, optionally without sensors (intermediate RK4 stages)."""
   sleep_enabled = bool(m.opt.enableflags & EnableBit.SLEEP) and not bool(m.opt.disableflags & DisableBit.ISLAND)
   if sleep_enabled:
     sleep.wake(m, d)
     sleep.update_sleep(m, d)
 
   fwd_position(m, d, factorize=False)
-  d.sensordata.zero_()
-  sensor.sensor_pos(m, d)
-  _energy_pos(m, d)
+  if not skipsensor:
+    d.sensordata.zero_()
+    sensor.sensor_pos(m, d)
+  _energy_pos(m, d, skipsensor)
 
   fwd_velocity(m, d)
-  sensor.sensor_vel(m, d)
-  _energy_vel(m, d)
+  if not skipsensor:
+    sensor.sensor_vel(m, d)
+  _energy_vel(m, d, skipsensor)
 
   if not (m.opt.disableflags & DisableBit.ACTUATION):
     if m.callback.control:
@@ -1412,7 +1413,14 @@ def forward(m: Model, d: Data):
   fwd_acceleration(m, d, factorize=True)
 
   solver.solve(m, d)
-  sensor.sensor_acc(m, d)
+  if not skipsensor:
+    sensor.sensor_acc(m, d)
+
+
+@event_scope
+def forward(m: Model, d: Data):
+  """Forward dynamics."""
+  _forward(m, d, skipsensor=False)
 
 
 @event_scope
